@@ -32,7 +32,7 @@ Definition eTerminated := 22.  Definition eUDPTimeout := 23. Definition eURLPars
 Definition eBackChannel := 26. Definition eResolve := 27.    Definition eH264PM0 := 28.
 Definition eNoDest := 30.      Definition eNoPorts := 31.    Definition eListen := 32.
 Definition eMulticastRecord := 33.
-Definition eTooManyRedirects := 35. Definition eNoTransport := 36.   (* only with repairs switched on *)
+Definition eTooManyRedirects := 35. Definition eNoTransport := 36. Definition eInvalidMediaURL := 37.
 Definition cSkipped := 98.
 (* never produced on a well-formed run; each has a lemma saying so *)
 Definition eFuel := 900.  Definition eImpossible := 901.
@@ -54,15 +54,22 @@ Record config := mkCfg {
   canyport : bool;         (* AnyPortEnable *)
   cresolve : bool;         (* ResolveIPAddr succeeds on the host names a server may send *)
   cmclisten : bool;        (* the multicast listeners can be opened *)
-  (* Code variant. All off = the code that exists in /repo; [run] (the correspondence) always uses that.
-     Each flag switches on one proposed repair, so that ModelFixed.v / ProofsFixed.v can state what the
-     repaired client satisfies without duplicating the model. *)
-  xf10 : bool;             (* Media.URL returns the ParseURL error *)
-  xf11 : option nat;       (* doDescribe follows at most that many redirects *)
+  (* Code variant. All on ([cfg_now]) = the code that exists in /repo: each flag is one "fix:" commit there
+     (ddd2501, 09a799a, de76fe4, dea4e7d, f303bfa, d468819). [run] (the correspondence) uses [cfg_now]. All off
+     ([cfg_old]) = the code before those commits; it is kept so that the old defects stay stated as
+     regression lemmas (Proofs.v section 4) at no cost. *)
+  xf10 : bool;             (* doSetup refuses a nil media URL just before the SETUP request *)
+  xf11 : option nat;       (* doDescribe follows at most that many redirects (clientMaxRedirects) *)
   xn1 : bool;              (* the protocol switch skips the DESCRIBE when no DESCRIBE was ever made *)
   xn2 : bool;              (* the protocol switch fixes the transport after its DESCRIBE *)
   xn3 : bool;              (* Play / Record refuse to start without a set up transport *)
   xn4 : bool }.            (* reset() forgets the failure of the connection it has just replaced *)
+
+(* the code that exists in /repo today (every repair is a commit there), and the code before them *)
+Definition cfg_now (p : option proto) (creds back anyport resolve mclisten : bool) : config :=
+  mkCfg p creds back anyport resolve mclisten true (Some (N.to_nat csm_max_redirects)) true true true true.
+Definition cfg_old (p : option proto) (creds back anyport resolve mclisten : bool) : config :=
+  mkCfg p creds back anyport resolve mclisten false None false false false false.
 
 (* ---------- what the server says ---------- *)
 Inductive ctl := CtlOk | CtlNil | CtlErr.   (* Media.URL: a URL / (nil, nil) / an error *)
@@ -331,18 +338,18 @@ Fixpoint do_describe (fuel : nat) (cfg : config) (nred : option nat) (urlnil : b
         end
       else if (csm_status_moved_permanently <=? rstatus r) && (rstatus r <=? csm_status_use_proxy)
               && negb (loc_absent (rloc r)) then
+        match nred with
+        | Some O => (w1, Err eTooManyRedirects)                    (* redirectCount >= clientMaxRedirects *)
+        | _ =>
         match reset cfg w1 with
         | (w2, Panic) => (w2, Panic)
         | (w2, _) =>
           match rloc r with
           | LocBad => (w2, Err eURLParse)
-          | _ => if urlnil then (w2, Panic)                        (* :1493 u.User *)
-                 else match nred with
-                      | Some O => (w2, Err eTooManyRedirects)
-                      | Some (S k) => do_describe f cfg (Some k) false w2
-                      | None => do_describe f cfg None false w2    (* :1500 *)
-                      end
+          | _ => if urlnil then (w2, Panic)                        (* u.User *)
+                 else do_describe f cfg (match nred with Some (S k) => Some k | _ => None end) false w2
           end
+        end
         end
       else (w1, Err eBadStatus)
     end
@@ -424,12 +431,13 @@ Fixpoint do_setup (fuel : nat) (cfg : config) (m : media) (w : W) : W * R unit :
     match (match p with PTCP => free_channel (st_medias s0) | _ => Some 0 end) with
     | None => (w0, Err eImpossible)          (* findFreeChannelPair would not terminate: never, see Proofs *)
     | Some _ =>
-    match (match mctl m with CtlNil => if xf10 cfg then CtlErr else CtlNil | c => c end) with
-    | CtlErr => (w0, Err eURLParse)          (* :1780 *)
+    match mctl m with
+    | CtlErr => (w0, Err eURLParse)          (* medi.URL(baseURL) returns an error *)
     | _ =>
     let urlnil := match mctl m with CtlNil => true | _ => false end in
     if mback m && negb (cback cfg) then (w0, Err eBackChannel) else
     if mpm0 m && (negb (play_side s0) || negb (proto_eqb p PTCP)) then (w0, Err eH264PM0) else
+    if urlnil && xf10 cfg then (w0, Err eInvalidMediaURL) else      (* if mediaURL == nil *)
     match do_ cfg mSetup urlnil false w0 with
     | (w1, Panic) => (w1, Panic)
     | (w1, Err e) => (w1, Err e)
@@ -453,11 +461,12 @@ Fixpoint do_setup (fuel : nat) (cfg : config) (m : media) (w : W) : W * R unit :
           match reset cfg (upd (set_baseurl true) w1) with
           | (w2, Panic) => (w2, Panic)
           | (w2, _) =>
-            let w3 := upd (set_strans (Some (PTCP, secure))) w2 in
-            if xn1 cfg && negb (st_lasturl (wst w3)) then do_setup f cfg m w3 else
+            (* the transport is assigned before the re-DESCRIBE (old code) or after it (xn2) *)
+            let w3 := if xn2 cfg then w2 else upd (set_strans (Some (PTCP, secure))) w2 in
+            let fixt := fun wx : W => if xn2 cfg then upd (set_strans (Some (PTCP, secure))) wx else wx in
+            if xn1 cfg && negb (st_lasturl (wst w3)) then do_setup f cfg m (fixt w3) else
             match do_describe (S (length (wsc w3))) cfg (xf11 cfg) (negb (st_lasturl (wst w3))) w3 with
-            | (w4, Ok _) =>
-                do_setup f cfg m (if xn2 cfg then upd (set_strans (Some (PTCP, secure))) w4 else w4)
+            | (w4, Ok _) => do_setup f cfg m (fixt w4)
             | (w4, Err e) => (w4, Err e)
             | (w4, Panic) => (w4, Panic)
             end
@@ -561,17 +570,18 @@ Definition try_switch (cfg : config) (rev : bool) (w : W) : W * R unit :=
     match reset cfg w with
     | (w1, Panic) => (w1, Panic)
     | (w1, _) =>
-      let w2 := upd (set_strans (Some (PTCP, secure))) w1 in
+      let w2 := if xn2 cfg then w1 else upd (set_strans (Some (PTCP, secure))) w1 in
+      let fixt := fun wx : W => if xn2 cfg then upd (set_strans (Some (PTCP, secure))) wx else wx in
       let continue := fun w3 : W =>
         match setup_all cfg (if rev then List.rev prev else prev) w3 with
         | (w4, Ok _) => do_play cfg w4
         | x => x
         end in
-      if xn1 cfg && negb (st_lasturl (wst w2)) then continue w2 else
+      if xn1 cfg && negb (st_lasturl (wst w2)) then continue (fixt w2) else
       match do_describe (S (length (wsc w2))) cfg (xf11 cfg) (negb (st_lasturl (wst w2))) w2 with
       | (w3, Panic) => (w3, Panic)
       | (w3, Err e) => (w3, Err e)
-      | (w3, Ok _) => continue (if xn2 cfg then upd (set_strans (Some (PTCP, secure))) w3 else w3)
+      | (w3, Ok _) => continue (fixt w3)
       end
     end
   end.
@@ -809,7 +819,7 @@ Definition run (c : list N) : list N :=
       | Some (_, nreq :: t2) =>
         match dec_script t2 nreq t2 with
         | Some sc =>
-          let cfg := mkCfg cp (getb cr) (getb bk) (getb ap) false false false None false false false false in
+          let cfg := cfg_now cp (getb cr) (getb bk) (getb ap) false false in
           let c0 := mkCl (mkW st0 sc 0 false) None (if getb lc then Some (default_medias nm) else None) [] in
           match calls cfg nm (getb rv) (steps ++ [AClose]) c0 with
           | None => [77]
